@@ -452,14 +452,14 @@ def wal_cut_points(points, root, max_images=2, span=120):
     return extra
 
 
-def recover_images(binary, image_dirs, keys_hex, nkeys, timeout_per=20, chunk=40, decode=False):
+def recover_images(binary, image_dirs, keys_hex, nkeys, timeout_per=20, chunk=40, decode=False, cont=False):
     """run the real recovery (vdrv dbread) on every image directory; returns {dir: result dict}"""
     results = {}
 
     def run_chunk(dirs, tmo):
         inp = common.scratch("dbread") + "/in-%s.json" % hashlib.sha1("|".join(dirs).encode()).hexdigest()[:12]
         with open(inp, "w") as f:
-            json.dump({"keys": keys_hex, "n": nkeys, "dirs": dirs, "decode": decode}, f)
+            json.dump({"keys": keys_hex, "n": nkeys, "dirs": dirs, "decode": decode, "cont": cont}, f)
         rc, out, err, to = common.run_proc([binary, "dbread", inp], tmo)
         got = {}
         for ln in (out or b"").decode("utf-8", "replace").splitlines():
